@@ -144,6 +144,14 @@ func RunNameTests() {
 			swapped = append(swapped, xsel.WithNS(other, u))
 		}
 	}
+	// a binding whose prefix is spelled like a local name used in the query and
+	// in the document: it must not influence unprefixed name tests
+	if nd.Choice(2) == 1 {
+		u := symURI()
+		bind.NS["a"] = u
+		set = append(set, xsel.WithNS("a", u))
+		swapped = append(swapped, xsel.WithNS("a", u))
+	}
 	m := &menu[nd.Choice(len(menu))]
 	nd.Reach("name-tests")
 	r, err := xsel.Exec(b.Root, m.g, set...)
